@@ -290,6 +290,36 @@ def evaluate(g, rec, collect):
                                            "second_call_00": float(np.asarray(again)[0, 0]),
                                            "first_call_00": float(first[0, 0])})
             res[...] = first
+    # call history: the caller updates its own K / S_a / S_y arrays in place between two calls that pass
+    # the same objects - the second answer must be the one a fresh copy of the updated arrays gets
+    if g["s"] % 3 == 1:
+        Kb, Sab, Syb = K.copy(), S_a.copy(), S_y.copy()
+        for name, fn, extra in (
+                ("error_covariance_matrix", common.error_covariance_matrix, ()),
+                ("retrieval_gain_matrix", common.retrieval_gain_matrix, ()),
+                ("averaging_kernel_matrix", common.averaging_kernel_matrix, ()),
+                ("retrieval_noise", error.retrieval_noise, (e_y,))):
+            Kb[...], Sab[...], Syb[...] = K, S_a, S_y
+            ok_a, _ = call(rec, case, name + " (before in-place update)", fn, Kb, Sab, Syb, *extra)
+            which = g["s"] % 4
+            if which in (0, 3):
+                Syb *= 4.0
+            if which in (1, 3):
+                Kb *= 0.5
+            if which == 2:
+                Sab *= 0.25
+            ok_b, again = call(rec, case, name + " (same objects, updated in place)", fn, Kb, Sab, Syb,
+                               *extra)
+            ok_c, fresh = call(rec, case, name + " (fresh copies)", fn, Kb.copy(), Sab.copy(),
+                               Syb.copy(), *extra)
+            rec.count("history.inplace_input_calls")
+            if ok_a and ok_b and ok_c and not np.array_equal(np.asarray(again), np.asarray(fresh)):
+                collect("stale-state", {"function": name,
+                                        "why": "same argument objects updated in place: answer differs "
+                                               "from the one for fresh copies of the same values",
+                                        "updated": ["S_y", "K", "S_a", "S_y and K"][which],
+                                        "max_abs_diff": float(np.max(np.abs(np.asarray(again, dtype=float)
+                                                                            - np.asarray(fresh, dtype=float))))})
     nS, nSa = ref.nS, ref.la_max
     I = np.eye(n, dtype=M.LD)
     if ok1:
